@@ -236,6 +236,27 @@ def _mirror(ctx, fa, fb, what, flip_rel):
            f"{len(sa)} constraints mirror each other" if sa == sb else f"constraint sets differ: {[x[0] + ' ' + x[1][:40] for x in sa]} vs {[x[0] + ' ' + x[1][:40] for x in sb]}", pb.node)
 
 
+def _no_entrywise_real(ctx, f):
+    """Operator inequalities must be imposed on the operator, not on its entrywise real part (which is basis dependent and
+    drops the anti-symmetric imaginary part of a Hermitian expression)."""
+    m = ctx.model
+    sk = Skeleton(m, f)
+    bad = None
+    n = 0
+    for c in sk.cons:
+        if c.rel not in (">>", "<<"):
+            continue
+        n += 1
+        for side in (c.lhs, c.rhs):
+            if side[0] == "call" and side[1] in ("cvxpy.real", "numpy.real") or side[0] == "real":
+                inner = side[2][0] if side[0] == "call" else side[1]
+                if inner != ("c", 0):
+                    bad = c
+    ctx.ob("R-COV", f, "operator inequalities act on the operator, not on its entrywise real part", bad is None if n else None,
+           f"{n} operator inequalit(y/ies) on Hermitian expressions" if bad is None else
+           f"`{unparse(bad.node)[:80]}` takes the entrywise real part of a Hermitian operator expression: for complex data the dual is no longer the dual of the primal", bad.node if bad else None, required=bool(n))
+
+
 def _hedging(ctx):
     m = ctx.model
     qh = [c for c in m.classes.values() if c.name == "QuantumHedging"][0]
@@ -290,6 +311,8 @@ def _hedging(ctx):
         for c in brs:
             okk = okdef and sk.og.derives_from(c.lhs_node, "kron_var")
             ctx.ob("R-SDP", f, "dual operator is (a permutation of) I (x) Y", bool(okk), "kron(eye, Y) conjugated by the fixed permutation" if okk else f"lhs {show(N(c.lhs_node))[:60]}", c.node)
+    for f in (md, nd):
+        _no_entrywise_real(ctx, f)
     # subsystems traced: range(0, 2n-1, 2) ; dims [2]*2n
     init = qh.methods["__init__"]
     Ni = Normalizer(m, init, inline=False)
@@ -322,6 +345,9 @@ def _clone(ctx):
     brs = [c for c in skd.cons if c.rel in (">>", "<<")]
     ctx.ob("R-SDP", dp, "dual feasibility: I (x) I (x) Y >= Q in both repetition branches", len(brs) == 2 and {c.rel for c in brs} == {">>"},
            "both branches `>>`" if len(brs) == 2 and {c.rel for c in brs} == {">>"} else f"{[(c.rel) for c in brs]}")
+    _no_entrywise_real(ctx, dp)
+    from ..rules import r_dtype_default_buffer
+    r_dtype_default_buffer(ctx, oc, "states")
     # traced subsystems: 1-based list, multiples of 3 removed, decremented once
     N = Normalizer(m, pp, inline=False)
     decs = 0
